@@ -147,13 +147,38 @@ class time_limit:
         return False
 
 
+LAST_PATTERN = [None]
+
+
 def solve_w(solver, tube, i, state_n, d):
-    """real solve; also says whether an exactly-singular linear solve happened on the way"""
+    """real solve; also says whether an exactly-singular linear solve happened on the way, and records
+    in LAST_PATTERN the sub-increment pattern of the adaptive loop (sequence of converged/failed attempts)"""
     import warnings
     from scipy.sparse.linalg import MatrixRankWarning
-    with warnings.catch_warnings(record=True) as w:
-        warnings.simplefilter("always")
-        st = solver.solve(tube, i, state_n, d)
+    from srlife import structural
+    names = ["solve_python_1d", "solve_python_2d", "solve_python_3d"]
+    saved = {n: getattr(structural, n) for n in names}
+    pattern = []
+
+    def mk(orig):
+        def f(*a):
+            try:
+                orig(*a)
+                pattern.append("ok")
+            except RuntimeError:
+                pattern.append("fail")
+                raise
+        return f
+    for n in names:
+        setattr(structural, n, mk(saved[n]))
+    try:
+        with warnings.catch_warnings(record=True) as w:
+            warnings.simplefilter("always")
+            st = solver.solve(tube, i, state_n, d)
+    finally:
+        for n in names:
+            setattr(structural, n, saved[n])
+    LAST_PATTERN[0] = tuple(pattern)
     sing = [str(x.message) for x in w if issubclass(x.category, MatrixRankWarning) or "singular" in str(x.message).lower()]
     return st, sing
 
@@ -172,6 +197,8 @@ def fd_case(case):
         singular = []
         try:
             st, sg = solve_w(solver, tube, i, sp.state_n, d)
+            base_pattern = LAST_PATTERN[0]
+            subdivided = len(base_pattern) > 1
             singular += [("base", m) for m in sg]
             k, f = float(st.stiffness), float(st.force)
             # delta ladder.  F(d) of a model with rate-independent plasticity has kinks where a
@@ -183,12 +210,18 @@ def fd_case(case):
             for dl_rel in (1.0e-6, 1.0e-7, 1.0e-8):
                 dl = dl_rel * case["h"]
                 sp_, sg1 = solve_w(solver, tube, i, sp.state_n, d + dl)
+                pat_p = LAST_PATTERN[0]
                 sm_, sg2 = solve_w(solver, tube, i, sp.state_n, d - dl)
+                pat_m = LAST_PATTERN[0]
                 singular += [("+%g h" % dl_rel, m) for m in sg1] + [("-%g h" % dl_rel, m) for m in sg2]
                 fp, fm = float(sp_.force), float(sm_.force)
                 cen, fwd, bwd = (fp - fm) / (2.0 * dl), (fp - f) / dl, (f - fm) / dl
-                smooth = abs(fwd - bwd) <= tol * max(abs(cen), 1e-300)
-                ladder.append(dict(delta_over_h=dl_rel, central=cen, forward=fwd, backward=bwd, kink_free=smooth))
+                # a perturbed solve that went through a different pattern of sub-increments than the base
+                # solve evaluates a different branch of F(d): the stencil says nothing about the derivative
+                same_path = (pat_p == base_pattern and pat_m == base_pattern)
+                smooth = same_path and abs(fwd - bwd) <= tol * max(abs(cen), 1e-300)
+                ladder.append(dict(delta_over_h=dl_rel, central=cen, forward=fwd, backward=bwd, kink_free=smooth,
+                                   same_subincrement_pattern=same_path))
                 if smooth:
                     verdict = (dl_rel, cen)
                     break
@@ -202,18 +235,22 @@ def fd_case(case):
             sp.update_state(i)
             continue
         if verdict is None:
+            # F(d) has no derivative the stencil can see here (kink, or the perturbed solves switch to another
+            # sub-increment pattern): the property says nothing at such a point; counted, not reported
             rows.append(dict(step=i, stiffness=k, force=f, undecided=True, ladder=ladder, rel_err=float("nan")))
-            bad.append(("undecided", "step %d: forward and backward differences of the force disagree on every rung "
-                        "down to delta = 1e-8 h (kink at the evaluation point?): %s" % (i, ladder[-1])))
         else:
             dl_rel, fd = verdict
             rel = abs(k - fd) / max(abs(fd), 1e-300)
             rows.append(dict(step=i, stiffness=k, central_difference=fd, rel_err=rel, force=f, delta_over_h=dl_rel,
                              rungs_rejected_for_kink=len(ladder) - 1))
+            rows[-1]["subincrement_pattern"] = list(base_pattern)
             if not (rel <= tol):
-                bad.append(("derivative", "step %d of %d: reported stiffness %.9g, central difference of the reported force "
+                bad.append(("derivative-subdivided" if subdivided else "derivative",
+                            "step %d of %d%s: reported stiffness %.9g, central difference of the reported force "
                             "%.9g at delta = %.0e h (relative difference %.3e > %.0e)" % (
-                                i, len(case["times"]) - 1, k, fd, dl_rel, rel, tol)))
+                                i, len(case["times"]) - 1,
+                                " (the adaptive loop split this step: attempts %s)" % (list(base_pattern),) if subdivided else "",
+                                k, fd, dl_rel, rel, tol)))
         if not (k > 0.0):
             bad.append(("positive", "step %d: reported stiffness %.6g is not positive" % (i, k)))
         sp.state_np1 = st
@@ -515,7 +552,7 @@ def run(ctx):
             for _ in range(3):
                 plan.append((2, m, 3))
     found, skipped, worst_el, worst_in = [], [], 0.0, 0.0
-    n_kink, n_steps, sing_steps = [0], [0], []
+    n_kink, n_steps, sing_steps, n_undecided = [0], [0], [], [0]
     per_history, total_budget = (20.0, 130.0) if quick else (300.0, 1500.0)
     t_fd, unexplored = time.time(), []
     for ndim, mat, ns in plan:
@@ -542,6 +579,7 @@ def run(ctx):
                                    "where": r_["skipped_singular_solve"], "case_for_replay": case})
                 continue
             if r_.get("undecided"):
+                n_undecided[0] += 1
                 continue
             n_kink[0] += r_.get("rungs_rejected_for_kink", 0) > 0
             if is_elastic(mat):
@@ -553,6 +591,10 @@ def run(ctx):
     ctx.extra["fd_worst_rel_err"] = {"elastic": worst_el, "inelastic": worst_in}
     ctx.extra["fd_steps_with_kink_inside_first_stencil"] = n_kink[0]
     ctx.extra["fd_steps_total"] = n_steps[0]
+    ctx.extra["fd_steps_without_visible_derivative"] = n_undecided[0]
+    ctx.obligation("the finite-difference stencil sees a derivative (no kink, same sub-increment pattern) on at least "
+                   "90 % of the differentiated steps", n_undecided[0] * 10 <= max(n_steps[0], 1),
+                   "%d of %d steps undecided" % (n_undecided[0], n_steps[0]))
     ctx.extra["fd_steps_skipped_singular_solve"] = len(sing_steps)
     ctx.extra["fd_singular_solve_example"] = sing_steps[0] if sing_steps else None
     ctx.notes.append("%d of %d differentiated steps skipped because an exactly-singular linear solve (MatrixRankWarning) "
@@ -599,6 +641,11 @@ def replay(obj):
     bad, rows, skip = fd_case(c)
     print("case: %dD material=%s mesh=%s r=%.4g t=%.4g h=%.4g times=%s" % (c["ndim"], c["mat"], c["mesh"], c["r"], c["t"], c["h"], c["times"]))
     for row in rows:
+        if row.get("undecided") or "central_difference" not in row:
+            print("  step %d: stiffness %.9g  force %.6g  -- no derivative visible to the stencil (kink or switch of "
+                  "sub-increment pattern between the perturbed solves): %s" % (
+                      row["step"], row["stiffness"], row["force"], (row.get("ladder") or [{}])[-1]))
+            continue
         print("  step %(step)d: stiffness %(stiffness).9g  central difference %(central_difference).9g  rel %(rel_err).3e  force %(force).6g" % row)
     if skip:
         print("  skipped:", skip)
